@@ -54,6 +54,7 @@ ObsOK(Q) == /\ Q.val = Ev.obs.val /\ Q.vst = Ev.obs.vst /\ Q.gen = Ev.obs.gen
             /\ Q.raised = Ev.obs.raised
             /\ IF Ev.o = "get" THEN BagEq(Canon(Q.pub), Canon(Ev.obs.pub)) ELSE PubEq(Q.pub, Ev.obs.pub)
             /\ IF Ev.o = "get" THEN BagEq(Dedup(CanonH(Q.hlog)), Dedup(CanonH(Ev.obs.hlog)))
+               ELSE IF Ev.o = "tick" THEN Range(CanonH(Q.hlog)) = Range(CanonH(Ev.obs.hlog))     \* the order in which pending coroutine handlers run is not part of any property
                ELSE Dedup(CanonH(Q.hlog)) = Dedup(CanonH(Ev.obs.hlog))
 NoReadOn(v) == ~\E h \in DOMAIN D.hs : D.hs[h].v = v /\ D.hs[h].ev = "R"
 NoVetoOn(v) == ~\E h \in DOMAIN D.hs : D.hs[h].v = v /\ D.hs[h].veto
